@@ -51,6 +51,12 @@ ASSUMPTIONS = [
     'the affixes; rename_elementary(names, prefix, suffix) the name with the affixes; a dictionary never '
     'holds a name together with its affixed form; the betas dictionary of an evaluation names free '
     'parameters of the formula (or names foreign to it) only',
+    'several formulas: each formula is a fresh composite expression built over catalog objects that other '
+    'formulas may also contain; the formula object itself is never a sub-expression of another formula '
+    '(set_central_controller hands a formula\'s central controller down to every node below it, so a node that '
+    'is itself used as a formula reports the space of the formula explored last - observed on the unchanged '
+    'library, not asserted either way); nothing is asserted about what a formula reports after ANOTHER formula '
+    'moved a shared controller, only about what it does when explored or configured itself',
     'operators are looked up under the names prepare_operators gives them (Increase <c>, Decrease <c>, '
     'Pair_<a>_<b>_<NE|NW|SE|SW>, Increase_several, Decrease_several; names that two pairs would share are '
     'only checked for validity); the global `random` / numpy RNG is seeded from the spec before each call',
@@ -1369,6 +1375,259 @@ def judge_through(spec) -> Outcome:
 
 
 # ---------------------------------------------------------------------------------------------
+# sub-check 5: several formulas over shared catalog objects, explored one after the other
+#
+# spec['roots'] = 2-3 formulas, each a fresh composite tree over catalog / helper objects of ONE structure (some
+# objects common to several formulas, some not); spec['fhistory'] = steps, f = formula number
+#   ['count', f]                      number_of_multiple_expressions
+#   ['set', f]                        set_of_configurations
+#   ['iterate', f]                    iteration
+#   ['ids', f, perm]                  every identifier of the formula's OWN product: configure_catalogs accepts it
+#   ['configure', f, idx, perm, how]  configure_catalogs + value against the formula's own hand-substituted version
+
+
+def formula_spec(spec, f):
+    sub = dict(spec)
+    sub['root'] = spec['roots'][f % len(spec['roots'])]
+    return sub
+
+
+def _adopt_orders(m, expression):
+    cats = real_catalogs(expression)
+    orders = {c.controlled_by.controller_name: list(c.controlled_by.specification_names) for c in cats}
+    for n in m.names:
+        if m.kind[n] != 'helper':
+            continue  # the parent has compared these with the model, in order
+        if n in orders and sorted(orders[n]) == sorted(m.order[n]):
+            m.order[n] = orders[n]
+        else:
+            return None
+    return cats, orders
+
+
+def _observe_formulas(spec):
+    res = dict(steps=[], orders={})
+    nf = len(spec['roots'])
+    models = [Model(formula_spec(spec, f)) for f in range(nf)]
+    exprs, cats = {}, {}
+    try:
+        database = build.build_database(spec['table'])
+        b = CatalogBuilder(spec)  # ONE builder: the formulas share the catalog objects
+        betas = spec['betas'] or None
+
+        def formula(f):
+            if f not in exprs:
+                e = _guard(res, 'build', b.build, spec['roots'][f])
+                got = _adopt_orders(models[f], e)
+                if got is None:
+                    res['structure_mismatch'] = f
+                    raise _Stop()
+                cats[f], res['orders'][f] = got
+                exprs[f] = e
+            return exprs[f]
+
+        if not spec['lazy']:
+            for f in range(nf):
+                formula(f)
+        for step in spec['fhistory']:
+            kind, f = step[0], step[1] % nf
+            rec = dict(kind=kind, f=f)
+            res['steps'].append(rec)
+            e, m = formula(f), models[f]
+            if kind == 'count':
+                rec['n'] = _guard(res, 'number_of_multiple_expressions', e.number_of_multiple_expressions)
+            elif kind == 'set':
+                the_set = _guard(res, 'set_of_configurations', e.set_of_configurations)
+                rec['set'] = None if the_set is None else sorted(
+                    ([conf_dict(c), c.get_string_id()] for c in the_set), key=lambda x: x[1])
+            elif kind == 'iterate':
+                rec['visited'] = visited = []
+                iterator = _guard(res, 'iter', iter, e)
+                while True:
+                    try:
+                        x = _guard(res, 'next', next, iterator)
+                    except StopIteration:
+                        break
+                    if len(visited) > m.size() + 2:
+                        rec['endless'] = True
+                        break
+                    current = conf_dict(_guard(res, 'current_configuration', x.current_configuration))
+                    visited.append([current, shown(cats[f])])
+            elif kind == 'ids':
+                rec['ids'] = rows = []
+                for i, cfg in enumerate(m.all_configs()):
+                    sid = ';'.join(f'{c}:{s}' for c, s in sorted(cfg.items()))
+                    rec['at'] = sid
+                    conf = bconf.Configuration.from_string(sid) if (step[2] + i) % 2 == 0 else \
+                        make_configuration(cfg, step[2] + i, (step[2] + i) // 2)
+                    _guard(res, 'configure_catalogs(own identifier)', e.configure_catalogs, conf)
+                    current = conf_dict(_guard(res, 'current_configuration', e.current_configuration))
+                    rows.append([cfg, current, shown(cats[f])])
+            elif kind == 'configure':
+                cfg = m.config_from_indices(step[2])
+                rec['cfg'] = dict(cfg)
+                _guard(res, 'configure_catalogs', e.configure_catalogs, make_configuration(cfg, step[3], step[4]))
+                rec['current'] = conf_dict(_guard(res, 'current_configuration', e.current_configuration))
+                rec['shown'] = shown(cats[f])
+                plain = m.substitute(spec['roots'][f], cfg)
+                rec['value'] = np.asarray(_guard(res, 'get_value_c', e.get_value_c, database=database, betas=betas,
+                                                 prepare_ids=True), dtype=float).tolist()
+                hand = build.Builder(overloads=bool(spec.get('overloads'))).build(plain)
+                rec['hand'] = np.asarray(hand.get_value_c(database=database, betas=betas, prepare_ids=True),
+                                         dtype=float).tolist()
+            else:
+                raise ValueError(f'C16 spec: unknown step {kind!r}')
+    except _Stop:
+        pass
+    return res
+
+
+def judge_formulas(spec) -> Outcome:
+    out = Outcome()
+    nf = len(spec['roots'])
+    models = []
+    for f in range(nf):
+        sub = Outcome()
+        prep = prepare(formula_spec(spec, f), sub, 'formulas')
+        out.failures += sub.failures
+        if prep is None:
+            if sub.skipped:
+                out.skipped = f'formula {f}: {sub.skipped}'
+            return out
+        if prep[1] is None or isinstance(prep[1], bcat.Catalog):
+            raise RuntimeError('C16 harness: a formula of the formulas sub-check must be a composite expression')
+        models.append(prep[0])
+    out.classes.append(f'formulas={nf}')
+    relations = set()
+    for a in range(nf):
+        for b_ in range(a + 1, nf):
+            x, y = set(models[a].names), set(models[b_].names)
+            relations.add('equal' if x == y else 'disjoint' if not (x & y) else
+                          'nested' if (x <= y or y <= x) else 'partial')
+    out.classes += sorted('controller_sets:' + r for r in relations)
+    out.classes.append('built:' + ('at_first_use' if spec['lazy'] else 'up_front'))
+    out.nontrivial = bool(relations & {'nested', 'partial'})
+    r = isolate.call(_observe_formulas, spec)
+    if not r['ok']:
+        out.fail(f'formulas:child:raises:{r["exc_type"]}',
+                 f'{r["exc_type"]}: {(r["exc_msg"] or "")[:300]} for {render(spec)[:300]}')
+        return out
+    obs = r['value']
+    if 'structure_mismatch' in obs or any(
+            orders.get(n) != models[f].order[n] for f, orders in obs['orders'].items() for n in models[f].names):
+        out.fail('formulas:structure', f'controllers in the child {obs["orders"]} vs {[m.order for m in models]}')
+        return out
+    explored = []  # formulas in the order in which they were first explored
+    judged = 0
+    out.evaluations = 0
+    for i, rec in enumerate(obs['steps']):
+        f, kind = rec['f'], rec['kind']
+        m = models[f]
+        if f not in explored:
+            explored.append(f)
+        rank = 'first_formula' if explored[0] == f else 'later_formula'
+        out.classes.append(f'{kind}:{rank}')
+        expected = {frozenset(c.items()) for c in m.all_configs()}
+        label = (f'step {i} {spec["fhistory"][i]} on formula {f} (controllers {m.order}; formulas explored so far '
+                 f'{explored}) of {render(spec)[:500]}')
+        out.evaluations += 1
+        if kind == 'count':
+            if 'n' not in rec:
+                break
+            if rec['n'] != m.size():
+                out.fail(f'formulas:count:{rank}',
+                         f'{rec["n"]} configurations announced, the product of the sizes of the controllers of '
+                         f'this formula is {m.size()}; {label}')
+        elif kind == 'set':
+            if 'set' not in rec:
+                break
+            if rec['set'] is None:
+                out.fail(f'formulas:set:none:{rank}', f'no set of configurations for {m.size()} <= {MAX_SET}; {label}')
+                continue
+            got = {frozenset(d.items()) for d, _ in rec['set'] if d is not None}
+            if len(rec['set']) != m.size() or got != expected:
+                extra = [dict(x) for x in sorted(got - expected, key=sorted)[:2]]
+                missing = [dict(x) for x in sorted(expected - got, key=sorted)[:2]]
+                out.fail(f'formulas:set:content:{rank}',
+                         f'{len(rec["set"])} configurations for a product of {m.size()}: unexpected {extra}, '
+                         f'missing {missing}; {label}')
+            elif any(parse_id(sid) != d for d, sid in rec['set']):
+                out.fail(f'formulas:set:identifier:{rank}', f'an identifier does not spell its configuration; {label}')
+        elif kind == 'iterate':
+            if 'visited' not in rec or (obs.get('error') and i == len(obs['steps']) - 1):
+                break
+            visited = [frozenset(d.items()) if d is not None else None for d, _ in rec['visited']]
+            if rec.get('endless'):
+                out.fail(f'formulas:iteration:endless:{rank}', f'more than {m.size()} + 2 steps; {label}')
+            elif len(visited) != len(set(visited)) or set(visited) != expected:
+                miss = [dict(x) for x in sorted(expected - set(visited), key=sorted)[:2]]
+                extra = [dict(x) for x in sorted((v for v in set(visited) - expected if v is not None), key=sorted)[:2]]
+                out.fail(f'formulas:iteration:coverage:{rank}',
+                         f'iteration made {len(visited)} steps over {len(set(visited))} distinct configurations, '
+                         f'the formula has {m.size()}; missing {miss}, unexpected {extra}; {label}')
+            else:
+                for d, sh in rec['visited']:
+                    wrong = [s_ for s_ in sh if s_[2] != d.get(s_[1])]
+                    if wrong:
+                        out.fail(f'formulas:iteration:shown:{rank}',
+                                 f'while iterating at {d}: catalog {wrong[0][0]!r} (controller {wrong[0][1]!r}) '
+                                 f'shows {wrong[0][2]!r}; {label}')
+                        break
+        elif kind == 'ids':
+            if 'ids' not in rec:
+                break
+            for cfg, current, sh in rec['ids']:
+                wrong = [s_ for s_ in sh if s_[2] != cfg[s_[1]]]
+                if current != cfg or wrong:
+                    out.fail(f'formulas:ids:selected:{rank}',
+                             f'after configure_catalogs({cfg}) the formula reports {current}, catalogs show {sh}; {label}')
+                    break
+            if len(rec['ids']) != m.size():
+                break  # the error entry below names the stage
+        elif kind == 'configure':
+            if 'current' not in rec:
+                break
+            cfg = rec['cfg']
+            if not m.valid(cfg):
+                raise RuntimeError(f'C16 harness: {cfg} is not a configuration of formula {f}')
+            if rec['current'] != cfg:
+                out.fail(f'formulas:current_configuration:{rank}',
+                         f'after configure_catalogs({cfg}) the formula reports {rec["current"]}; {label}')
+            if 'shown' not in rec:
+                break
+            wrong = [s_ for s_ in rec['shown'] if s_[2] != cfg[s_[1]]]
+            if wrong:
+                out.fail(f'formulas:shown:{rank}',
+                         f'after configure_catalogs({cfg}): catalog {wrong[0][0]!r} governed by {wrong[0][1]!r} '
+                         f'shows member {wrong[0][2]!r}; {label}')
+            if 'value' not in rec or 'hand' not in rec:
+                break
+            plain = m.substitute(spec['roots'][f], cfg)
+            if not _same(rec['value'], rec['hand']):
+                out.fail(f'formulas:value:differs_from_hand_written:{rank}',
+                         f'engine value {rec["value"]} of the configured formula vs {rec["hand"]} of the formula '
+                         f'written out by hand ({refsem.render(plain)[:300]}); {label}')
+            ref = _reference_or_none(spec, plain, spec['betas'])
+            if ref is None:
+                out.classes.append('step_ill_posed')
+            else:
+                judged += 1
+                if not _close(rec['value'], ref):
+                    out.fail(f'formulas:value:reference:{rank}',
+                             f'engine value {rec["value"]} vs reference {[ev.v for ev in ref]} of '
+                             f'{refsem.render(plain)[:300]}; {label}')
+    if 'error' in obs:
+        e = obs['error']
+        last = obs['steps'][-1] if obs['steps'] else None
+        rank = '' if last is None else (':first_formula' if explored and explored[0] == last['f'] else ':later_formula')
+        out.fail(f'formulas:{e["stage"]}:raises:{e["type"]}{rank}',
+                 f'{e["stage"]} raised {e["type"]}: {e["msg"]} at step {len(obs["steps"]) - 1} '
+                 f'({last and last.get("at")}) of {render(spec)[:500]}')
+    out.evaluations = max(1, out.evaluations)
+    return out
+
+
+# ---------------------------------------------------------------------------------------------
 # rendering
 
 
@@ -1401,7 +1660,12 @@ def render(spec):
         segs = [(v, dict(mp), r) for v, mp, r in hp['segs']]
         parts.append(f'{hp["kind"]} {hp["name"]!r} betas={[b[1] for b in hp["betas"]]} '
                      f'alts={hp.get("alts")} segs={segs} max={hp["max"]}')
-    txt = f'{render_expr(spec["root"], spec)}  where ' + '; '.join(parts)
+    if 'roots' in spec:
+        head = ' || '.join(f'formula {f}: {render_expr(r_, spec)}' for f, r_ in enumerate(spec['roots']))
+        head += f'  built {"at first use" if spec["lazy"] else "up front"}; steps={spec["fhistory"]}'
+    else:
+        head = render_expr(spec['root'], spec)
+    txt = f'{head}  where ' + '; '.join(parts)
     if 'history' in spec:
         txt += f'  history={spec["history"]}'
     if 'ops' in spec:
@@ -1529,14 +1793,9 @@ def structures(draw, tier='quick', cap=MAX_SET, variables=None, bare=0.2):
     g = _Gen(draw, tier, cap, variables)
     p = g.p
 
-    # table
-    n_rows = draw(st.integers(1, 4 if big else 3))
-    columns = [[c, 'float', draw(st.lists(_dyadic(-2, 2), min_size=n_rows, max_size=n_rows))] for c in REAL_COLS]
-    columns += [[c, draw(st.sampled_from(['int', 'float'])),
-                 draw(st.lists(st.integers(0, 3), min_size=n_rows, max_size=n_rows))] for c in SEG_COLS]
-    columns.append([CHOICE, 'int', draw(st.lists(st.sampled_from(g.alts), min_size=n_rows, max_size=n_rows))])
-
-    # helpers
+    # helpers; category labels come from a pool that is small most of the time, so that the same label
+    # (and hence the same parameter name <beta>_<label>) occurs under several segmentation variables
+    label_pool = CATEGORY_NAMES[:draw(st.sampled_from([3, 4, 4, 5]))] if p(0.65) else CATEGORY_NAMES
     helpers = []
     helper_refs = []
     n_helpers = draw(st.sampled_from([0, 0, 1, 1, 1, 2])) if variables else 0
@@ -1552,7 +1811,7 @@ def structures(draw, tier='quick', cap=MAX_SET, variables=None, bare=0.2):
         segs = []
         for var in seg_vars:
             values = sorted(draw(st.lists(st.integers(0, 3), min_size=2, max_size=3, unique=True)))
-            cats_ = draw(st.lists(st.sampled_from(CATEGORY_NAMES), min_size=len(values), max_size=len(values),
+            cats_ = draw(st.lists(st.sampled_from(label_pool), min_size=len(values), max_size=len(values),
                                   unique=True))
             ref = draw(st.sampled_from([None] + cats_))
             segs.append([var, [[v, c] for v, c in zip(values, cats_)], ref])
@@ -1576,6 +1835,25 @@ def structures(draw, tier='quick', cap=MAX_SET, variables=None, bare=0.2):
             refs = [['Seg', h, i] for i in range(nb)]
         helpers.append(hp)
         helper_refs += refs
+
+    # table: free rows, preceded (most of the time) by rows in which the segmentation variables of the
+    # helper with most segmentations go through every combination of their mapped values (all variables
+    # when that makes at most 12 rows, else the first two of a drawn order)
+    cover = []
+    widest = max(helpers, key=lambda hp_: len(hp_['segs']), default=None)
+    if widest is not None and widest['segs'] and p(0.8):
+        segs_ = list(draw(st.permutations(widest['segs'])))
+        if math.prod(len(s_[1]) for s_ in segs_) > 12:
+            segs_ = segs_[:2]
+        cover = [dict(zip([s_[0] for s_ in segs_], combo))
+                 for combo in itertools.product(*[[v for v, _ in s_[1]] for s_ in segs_])]
+    n_rows = len(cover) + draw(st.integers(0 if cover else 1, 4 if big else 3))
+    columns = [[c, 'float', draw(st.lists(_dyadic(-2, 2), min_size=n_rows, max_size=n_rows))] for c in REAL_COLS]
+    for c in SEG_COLS:
+        free = draw(st.lists(st.integers(0, 3), min_size=n_rows, max_size=n_rows))
+        columns.append([c, draw(st.sampled_from(['int', 'float'])),
+                        [cover[i][c] if i < len(cover) and c in cover[i] else free[i] for i in range(n_rows)]])
+    columns.append([CHOICE, 'int', draw(st.lists(st.sampled_from(g.alts), min_size=n_rows, max_size=n_rows))])
 
     # explicit controllers and catalogs
     n_names = 12
@@ -1770,6 +2048,93 @@ def strat_through(draw, tier):
     return spec
 
 
+
+def _formula_steps():
+    f = st.integers(0, 5)
+    return st.one_of(
+        st.tuples(st.just('count'), f).map(list),
+        st.tuples(st.just('set'), f).map(list),
+        st.tuples(st.just('iterate'), f).map(list),
+        st.tuples(st.just('ids'), f, st.integers(0, 10 ** 6)).map(list),
+        st.tuples(st.just('configure'), f, _index_vectors(), st.integers(0, 10 ** 6), st.integers(0, 2)).map(list),
+        st.tuples(st.just('configure'), f, _index_vectors(), st.integers(0, 10 ** 6), st.integers(0, 2)).map(list),
+    )
+
+
+@st.composite
+def strat_formulas(draw, tier):
+    spec = draw(structures(tier, cap=MAX_SET))
+    refs, betas_, has_vars = [], {}, False
+    for node in all_nodes(spec):
+        if node[0] in ('Cat', 'Seg', 'Gas') and list(node) not in refs:
+            refs.append(list(node))
+        elif node[0] == 'Beta':
+            betas_.setdefault(node[1], list(node))
+        elif node[0] == 'Var':
+            has_vars = True
+    betas_ = [betas_[k] for k in sorted(betas_)]
+    base_root = spec.pop('root')
+
+    def leaf():
+        k = draw(st.integers(0, 5))
+        if betas_ and k < 3:
+            return list(draw(st.sampled_from(betas_)))
+        if has_vars and k == 3:
+            return ['Var', draw(st.sampled_from(REAL_COLS))]
+        return ['Num', draw(_dyadic(-3, 3))]
+
+    def term(ref):
+        k = draw(st.integers(0, 6))
+        if k == 0:
+            return ['Times', leaf(), list(ref)]
+        if k == 1:
+            return ['Plus', list(ref), leaf()]
+        if k == 2:
+            return ['Neg', list(ref)]
+        if k == 3:
+            return ['Minus', leaf(), list(ref)]
+        if k == 4:
+            return ['Max', list(ref), leaf()]
+        return list(ref)
+
+    def make(chosen):
+        terms = [term(r_) for r_ in chosen]
+        if len(terms) == 1:  # the formula is a fresh composite node, never the shared catalog object itself
+            return terms[0] if terms[0][0] not in ('Cat', 'Seg', 'Gas') else ['Times', leaf(), terms[0]]
+        if draw(st.integers(0, 3)) == 0:
+            return ['MultSum', terms]
+        root = terms[0]
+        for t in terms[1:]:
+            root = [draw(st.sampled_from(['Plus', 'Plus', 'Minus', 'Times'])), root, t]
+        return root
+
+    order = list(draw(st.permutations(refs)))
+    if draw(st.integers(0, 5)) == 0 and base_root[0] not in ('Cat', 'Seg', 'Gas'):
+        prev, roots = list(order), [base_root]  # the formula of the structure: reaches every object
+    else:  # most of the time the first formula leaves objects to the later ones
+        lo = 2 if len(order) >= 3 and draw(st.booleans()) else 1
+        prev = order[:draw(st.integers(lo, max(lo, len(order) - draw(st.sampled_from([0, 1, 1, 2])))))]
+        roots = [make(prev)]
+    for _ in range(draw(st.sampled_from([1, 1, 2]))):
+        inside = [r_ for r_ in order if r_ in prev]
+        outside = [r_ for r_ in order if r_ not in prev]
+        chosen = []
+        if draw(st.integers(0, 9)) < 8:
+            chosen.append(draw(st.sampled_from(inside)))
+        if outside and draw(st.integers(0, 9)) < 7:
+            chosen.append(draw(st.sampled_from(outside)))
+        if draw(st.integers(0, 9)) < 4:
+            chosen += [r_ for r_ in draw(st.lists(st.sampled_from(order), max_size=2)) if r_ not in chosen]
+        if not chosen:
+            chosen = [draw(st.sampled_from(order))]
+        roots.append(make(list(draw(st.permutations(chosen)))))
+        prev = chosen
+    spec['roots'] = roots
+    spec['lazy'] = draw(st.booleans())
+    spec['fhistory'] = draw(st.lists(_formula_steps(), min_size=3, max_size=9 if tier == 'thorough' else 7))
+    return spec
+
+
 _NT = 'non-trivial: a controller shared by >= 2 catalogs AND a catalog nested in a member of another AND >= 4 configurations'
 
 SUBCHECKS = [
@@ -1797,5 +2162,13 @@ SUBCHECKS = [
              'formula the harness writes for the new state, and with the reference value; non-trivial: '
              '>= 2 configurations AND an operation changes the value, status or name of a parameter inside '
              'a selected catalog member'),
+    SubCheck('formulas', strat_formulas, judge_formulas, render, dict(quick=1000, thorough=25000),
+             '2-3 formulas (fresh composite trees) over the catalog and helper objects of ONE structure, some '
+             'objects common to several formulas and some not, built up front or at first use, then a history '
+             'of 3-7 (3-9) steps on them in any order: announced number, enumerated set and iteration of each '
+             'formula == product of ITS OWN controllers, every identifier of its own product is accepted by '
+             'configure_catalogs and shown by its catalogs, a selected configuration evaluates like the '
+             'formula\'s own hand-substituted version and the reference; non-trivial: two formulas share a '
+             'controller without having the same controllers', max_skip_fraction=0.3),
 ]
 RULE = ' | '.join(f'{s.name}: {s.rule}' for s in SUBCHECKS)
